@@ -29,6 +29,11 @@ class ExcelType:
         inst.value = value
         return inst
 
+    def __reduce__(self):
+        # __new__ needs the value: the default copy/pickle protocol calls
+        # it without arguments.
+        return (self.__class__, (self.value,))
+
     @classmethod
     def cast(cls, value):
         if isinstance(value, cls):
